@@ -178,6 +178,14 @@ theorem v1t_C15_guarded_reachable_no_ub (o : FOps) (hc : CeilInRange o) (s : Sch
   rw [outcomesG_eq o hc]
   exact v1t_C15_reachable_no_ub o hc s ops
 
+/-- **The whole public alphabet** of `database` / `track` over this model — the operations above plus
+`database::tracks`, `track_by_id`, `tracks_by_relative_path` and the four calls without model content
+(`uuid`, `version_name`, `directory`, `verify`: outcome `ok`, exercised by the tie only) — along any script
+from the empty library of any 1.x version: never `ub`. -/
+theorem v1t_C15_all_calls_no_ub (o : FOps) (hc : CeilInRange o) (s : Schema) (l : List Call) :
+    ∀ r ∈ callOutcomes o ⟨s, []⟩ l, ∀ u, r ≠ .ub u :=
+  callOutcomes_defined o hc l ⟨s, []⟩ (dbInv_empty s)
+
 /-- Each guard is needed — what a regression of the C++ does to the model: without the slot range test
 (the defect repaired by `fix:` 611fb34) index INT_MAX reads outside the eight slots; with the `>= 1` test
 of `to_length_calculated` dropped (repaired by 1ecb065) a rate of 0.5 divides by zero; without the
